@@ -188,6 +188,47 @@ def exec_schema(binary, prelude):
     return s
 
 
+def judge_disabled(ctx, stats, r, m, label, how, extra=None, report=None):
+    """a request for which introspection is disabled: the Spec evaluated directly on the implementation's response
+    (every gated key null with the gate's error; data null for a non-null one), then response == gate model"""
+    report = report or ctx.violation
+    p = r["payloads"][0]
+    data = p["data"]
+    errs = sorted(e["path"] + " :: " + e["message"] for e in p["errors"])
+    gated = m["gated"]
+    if gated:
+        stats["nontrivial"].add(label + ":" + r["query"] + (":" + json.dumps(extra["exts"]) if extra else ""))
+    bad = None
+    for g in gated:
+        if data is not None and data.get(g["key"], "<absent>") is not None:
+            bad = "field %s (response key %s) is not null with introspection disabled" % (g["name"], g["key"])
+        elif (g["key"] + " :: " + g["msg"]) not in errs:
+            bad = "no error '%s' at path %s" % (g["msg"], g["key"])
+        elif g["nn"] and data is not None:
+            bad = "non-null %s failed but data is not null" % g["name"]
+        if bad:
+            break
+    if not bad and not gated and ("__schema" in r["query"] or "__type(" in r["query"] or "_service" in r["query"]):
+        stats["dist"]["gate:all-gated-fields-skipped"] += 1
+    diverges = render(data) != m["data"] or errs != m["errors"] or not m["wf"] or not m["noDirs"] or m["unlogged"]
+    if bad:
+        rep = {"kind": "gate", "config": label, "query": r["query"], "variables": r.get("variables"),
+               "operationName": r.get("operationName"), "response": p, "expected": {"data": m["data"], "errors": m["errors"]},
+               "what": bad, "shape": {"part": "gate", "field": [g["name"] for g in gated if data is not None and data.get(g["key"]) is not None][:1] or ["?"]},
+               "replay": "generated server %s, %s, run the query: %s" % (label, how, bad)}
+        rep.update(extra or {})
+        report(rep)
+    elif diverges:
+        stats["divergences"] += 1
+        rep = {"kind": "correspondence", "config": label, "query": r["query"], "variables": r.get("variables"),
+               "response": {"data": render(data), "errors": errs}, "model": m,
+               "shape": {"part": "gate", "component": "execution"},
+               "replay": "gate model (IntroGate over Exec) and generated server disagree; the Spec (gated positions null with the gate's error) holds on the response"}
+        rep.update(extra or {})
+        report(rep, no_failing_input=True)
+    return gated
+
+
 def run_gate(ctx, proved, stats, binary, label, fed, prelude, hbin):
     n = (500 if ctx.tier == "quick" else 5000)
     args = [hbin, "-mode", "gate", "-seed", str(ctx.seed), "-n", str(n)] + (["-fed"] if fed else [])
@@ -218,38 +259,7 @@ def run_gate(ctx, proved, stats, binary, label, fed, prelude, hbin):
             ctx.violation({"kind": "check-error", "what": "gate driver output", "id": r["id"], "query": r["query"], "detail": o[:300]},
                           no_failing_input=True)
             continue
-        p = r["payloads"][0]
-        data = p["data"]
-        errs = sorted(e["path"] + " :: " + e["message"] for e in p["errors"])
-        gated = m["gated"]
-        if gated:
-            stats["nontrivial"].add(label + ":" + r["query"])
-        # ---- Spec, evaluated directly on the implementation's response
-        bad = None
-        for g in gated:
-            if data is not None and data.get(g["key"], "<absent>") is not None:
-                bad = "field %s (response key %s) is not null with introspection disabled" % (g["name"], g["key"])
-            elif (g["key"] + " :: " + g["msg"]) not in errs:
-                bad = "no error '%s' at path %s" % (g["msg"], g["key"])
-            elif g["nn"] and data is not None:
-                bad = "non-null %s failed but data is not null" % g["name"]
-            if bad:
-                break
-        if not bad and not gated and ("__schema" in r["query"] or "__type(" in r["query"] or "_service" in r["query"]):
-            stats["dist"]["gate:all-gated-fields-skipped"] += 1
-        diverges = render(data) != m["data"] or errs != m["errors"] or not m["wf"] or not m["noDirs"] or m["unlogged"]
-        if bad:
-            ctx.violation({"kind": "gate", "config": label, "query": r["query"], "variables": r.get("variables"),
-                           "operationName": r.get("operationName"), "response": p, "expected": {"data": m["data"], "errors": m["errors"]},
-                           "what": bad, "shape": {"part": "gate", "field": [g["name"] for g in gated if data is not None and data.get(g["key"]) is not None][:1] or ["?"]},
-                           "replay": "generated server %s, introspection extension NOT installed, run the query: %s" % (label, bad)})
-        elif diverges:
-            stats["divergences"] += 1
-            ctx.violation({"kind": "correspondence", "config": label, "query": r["query"], "variables": r.get("variables"),
-                           "response": {"data": render(data), "errors": errs}, "model": m,
-                           "shape": {"part": "gate", "component": "execution"},
-                           "replay": "gate model (IntroGate over Exec) and generated server disagree; the Spec (gated positions null with the gate's error) holds on the response"},
-                          no_failing_input=True)
+        gated = judge_disabled(ctx, stats, r, m, label, "introspection extension NOT installed")
         # ---- control: the same query with the extension installed answers at __schema / _service
         on = byid.get(r["id"][:-len("false")] + "true")
         if on and on.get("payloads") and gated:
@@ -263,6 +273,130 @@ def run_gate(ctx, proved, stats, binary, label, fed, prelude, hbin):
     if dis:
         stats["samples"].append({"config": label, "query": dis[len(dis) // 2]["query"][:300], "response": render(dis[len(dis) // 2]["payloads"][0]["data"])[:200]})
     return len(dis)
+
+
+def run_gate_cfg(ctx, stats, binary, label, fed, prelude, hbin):
+    """the configuration dimension: handler extensions around the gate in every registration order. The contract
+    (Lean `Spec.effective`: parameter mutators, context mutators, operation middleware, each kind in registration
+    order, starting disabled) says for each request whether it is rejected, denied, or executed with the gate
+    closed / open; the REAL executor of the generated server must agree, and a request the contract disables
+    introspection for must observe the Spec of the gate."""
+    n = (150 if ctx.tier == "quick" else 1000)
+    args = [hbin, "-mode", "gatecfg", "-seed", str(ctx.seed), "-n", str(n), "-corpus", os.path.join(vf.VERIF, "corpus", "C16", "gatecfg")] + (["-fed"] if fed else [])
+    rc, so, se = vf.sh(args, timeout=600)
+    if rc != 0:
+        raise RuntimeError("gate configuration case generation failed: " + se[-2000:])
+    cases = {}
+    for l in so.split("\n"):
+        if l:
+            c = json.loads(l)
+            cases[c["id"]] = c
+    rc, ro, re_ = vf.sh([binary, "-mode", "run"], inp=so, timeout=1800, env={"GOMEMLIMIT": "4GiB"})
+    if rc != 0:
+        raise RuntimeError("runner failed rc=%s: %s" % (rc, re_[-2000:]))
+    res = [json.loads(l) for l in ro.split("\n") if l]
+    if len(res) != len(cases):
+        raise RuntimeError("runner answered %d of %d configuration cases" % (len(res), len(cases)))
+    verdicts = ctx.driver("c16", ["cfg " + json.dumps({"exts": cases[r["id"]]["exts"], "role": cases[r["id"]]["role"],
+                                                         "op": cases[r["id"]].get("operationName", "")}) for r in res])
+    todo, late = [], []
+    budget = [10]
+
+    def report(obj, no_failing_input=False):
+        # one changed loop breaks hundreds of configurations: a few replays per server are enough
+        stats["cfg_violations"] += 1
+        if budget[0] > 0:
+            budget[0] -= 1
+            ctx.violation(obj, no_failing_input=no_failing_input)
+    for r, v in zip(res, verdicts):
+        c = cases[r["id"]]
+        stats["evaluations"] += 1
+        stats["cfg_cases"] += 1
+        for t in c.get("tags") or []:
+            if t.startswith("cfg-"):
+                stats["dist"]["gate-" + t] += 1
+        how = "handler extensions registered in this order: %s; request extensions %s" % (
+            json.dumps(c["exts"]), json.dumps(c.get("extensions")))
+        extra = {"exts": c["exts"], "request_extensions": c.get("extensions"), "executed_query": c["realQuery"]}
+        try:
+            v = json.loads(v)
+            spec, impl = v["spec"], v["impl"]
+        except (ValueError, KeyError):
+            ctx.violation({"kind": "check-error", "what": "cfg driver output", "id": r["id"], "detail": str(v)[:300]}, no_failing_input=True)
+            continue
+        stats["dist"]["gate-cfg-outcome:" + spec["k"] + (":disabled" if spec.get("disable") else ":enabled" if spec["k"] == "run" else "")] += 1
+        if impl != spec:
+            # the code read through the regenerated facts departs from the contract (effective_eq_spec is broken too)
+            stats["cfg_model_departures"] += 1
+        if r.get("crash") or r.get("hung"):
+            ctx.violation({"kind": "gate-config", "config": label, "what": "the runner crashed / hung: %s" % (r.get("crash") or "hung"),
+                           "query": c["query"], **extra, "shape": {"part": "gate-config", "outcome": "crash"},
+                           "replay": "generated server %s, %s" % (label, how)})
+            continue
+        hook_errs = [e["message"] for e in r.get("gateErrors") or [] if e["message"].startswith("verif-hook:")]
+        if r.get("gateErrors") and not hook_errs:
+            stats["gate_rejected_by_validation"] += 1
+            continue
+        got = None
+        if r.get("gateErrors"):
+            got = {"k": "rejected", "msg": r["gateErrors"][0]["message"]} if len(r["gateErrors"]) == 1 else {"k": "rejected", "msgs": hook_errs}
+        elif not r.get("payloads"):
+            got = {"k": "no-response"}
+        else:
+            p = r["payloads"][0]
+            den = [e["message"] for e in p["errors"] if e["message"].startswith("verif-hook:")]
+            if den and p["data"] is None:
+                got = {"k": "denied", "msg": den[0]} if len(p["errors"]) == 1 else {"k": "denied", "msgs": [e["message"] for e in p["errors"]]}
+        if spec["k"] in ("rejected", "denied") or got is not None:
+            if got != spec:
+                late.append({"kind": "gate-config", "config": label, "query": c["query"], "operationName": c.get("operationName"), **extra,
+                               "what": "the contract (hooks in registration order) says %s, the server answered %s" % (
+                                   json.dumps(spec), json.dumps(got or {"k": "run"})),
+                               "response": (r.get("payloads") or [None])[0], "gateErrors": r.get("gateErrors"),
+                               "shape": {"part": "gate-config", "outcome": spec["k"]},
+                               "replay": "generated server %s, %s: expected %s" % (label, how, json.dumps(spec))})
+            continue
+        if spec["k"] != "run":
+            ctx.violation({"kind": "check-error", "what": "contract outcome " + json.dumps(spec), "id": r["id"]}, no_failing_input=True)
+            continue
+        todo.append((r, c, spec, how, extra))
+    # ---- executed requests: the gate model on the document the server executed
+    lines = ["schema " + json.dumps(exec_schema(binary, prelude))] + ["gate " + json.dumps(r) for r, _, _, _, _ in todo]
+    out = ctx.driver("c16", lines)
+    if out[0] != "ok":
+        raise RuntimeError("driver did not accept the execution schema: " + out[0][:300])
+    for (r, c, spec, how, extra), o in zip(todo, out[1:]):
+        try:
+            m = json.loads(o)
+        except ValueError:
+            ctx.violation({"kind": "check-error", "what": "gate driver output", "id": r["id"], "query": c["realQuery"], "detail": o[:300]},
+                          no_failing_input=True)
+            continue
+        r = dict(r, query=c["realQuery"])
+        if spec["disable"]:
+            judge_disabled(ctx, stats, r, m, label, how, extra, report)
+            continue
+        # the contract enables introspection for this request: no gate error, __schema / _service answer
+        p = r["payloads"][0]
+        data = p["data"]
+        gate_errs = [e for e in p["errors"] if e["message"] in ("introspection disabled", "federated introspection disabled")]
+        bad = None
+        if gate_errs:
+            bad = "error '%s' at %s although introspection is enabled for this request" % (gate_errs[0]["message"], gate_errs[0]["path"])
+        elif data is not None:
+            for g in m["gated"]:
+                if g["name"] != "__type" and data.get(g["key"]) is None:
+                    bad = "field %s (response key %s) is null although introspection is enabled for this request" % (g["name"], g["key"])
+        if bad:
+            late.append({"kind": "gate-config", "config": label, "query": c["realQuery"], "variables": r.get("variables"),
+                           "operationName": c.get("operationName"), **extra, "response": p, "what": bad,
+                           "shape": {"part": "gate-config", "outcome": "enabled"},
+                           "replay": "generated server %s, %s, run the query: %s" % (label, how, bad)})
+        elif m["gated"]:
+            stats["enabled_controls"] += 1
+    for obj in late:
+        report(obj)
+    return len(res)
 
 
 def run_server_mirror(ctx, stats, binary, label, hbin, probe):
@@ -320,12 +454,24 @@ def run(ctx):
         "the schema model carries exactly what the standard introspection query reports: directives *applied* to schema elements other than @deprecated/@specifiedBy/@oneOf are not part of it",
         "the gate is modelled on the C01 execution model (field collection, null bubbling); bound introspection methods are oracle entries at the root paths; generated servers are built at check time from /repo's templates",
         "federation `_service` is checked on one federation-v2 probe schema",
+        "configuration around the gate: extensions are modelled by what they do to DisableIntrospection (keep / set / flip / fail under a per-request condition on the request's role and operation name); the facts about processExtensions, CreateOperationContext and extension.Introspection are regenerated by go/extract/extorder.go and the reading of those facts (Impl.effective) is tied to the real executor by running every configuration on the generated servers",
     ]
     stats = {"evaluations": 0, "dist": Counter(), "nontrivial": set(), "divergences": 0, "oracle_failures": 0,
-             "samples": [], "gate_rejected_by_validation": 0, "enabled_controls": 0}
-    proved = ctx.prove(props=["GqlgenVerif.Props.C16"])
-    if not proved:
+             "samples": [], "gate_rejected_by_validation": 0, "enabled_controls": 0, "cfg_cases": 0, "cfg_model_departures": 0, "cfg_violations": 0}
+    # regenerated facts: processExtensions / CreateOperationContext / extension.Introspection (Gen/ExtOrder.lean)
+    if not ctx.extract("ExtOrder"):
+        # the source is outside what the translator reads (reported as a broken tie): facts with no reading, so that
+        # the configuration theorem is open but the driver still builds and every differential run below is made
+        with open(os.path.join(vf.LEAN, "GqlgenVerif", "Gen", "ExtOrder.lean"), "w") as f:
+            f.write("/- go/extract ExtOrder FAILED on /repo's current sources: no facts -/\nimport GqlgenVerif.Model.IntroGateCfg\n"
+                    "namespace GqlgenVerif.Gen.ExtOrder\nopen GqlgenVerif.IntroGate.Cfg\n"
+                    "def facts : Facts := { slots := [], initialDisable := false, createLoops := [], introspectionExt := [] }\n"
+                    "end GqlgenVerif.Gen.ExtOrder\n")
+    proved_all = ctx.prove(props=["GqlgenVerif.Props.C16", "GqlgenVerif.Props.C16Cfg"])
+    if not proved_all:
         ctx.cov["proof_failure"] = ctx.proof_failure
+    # the mirror / gate theorems (Props/C16.lean) stand on their own when only the configuration theorems broke
+    proved = proved_all or all("C16Cfg.lean" in str(f) for f in (ctx.proof_failure or ["?"]))
 
     if not getattr(ctx, "driver_ok", False):
         ctx.violation({"kind": "proof", "failing": ctx.proof_failure, "what": "Lean model / driver does not build"}, no_failing_input=True)
@@ -348,6 +494,7 @@ def run(ctx):
                                "shape": {"part": "build", "config": cfg}}, no_failing_input=True)
                 continue
             gate_cases += run_gate(ctx, proved, stats, b, "intro/" + cfg, False, prelude, hbin)
+            run_gate_cfg(ctx, stats, b, "intro/" + cfg, False, prelude, hbin)
             run_server_mirror(ctx, stats, b, "intro/" + cfg, hbin, "intro")
         for cfg in fedcfgs:
             try:
@@ -357,26 +504,32 @@ def run(ctx):
                                "shape": {"part": "build", "config": cfg}}, no_failing_input=True)
                 continue
             gate_cases += run_gate(ctx, proved, stats, b, "introfed/" + cfg, True, prelude, hbin)
+            run_gate_cfg(ctx, stats, b, "introfed/" + cfg, True, prelude, hbin)
         stats["gate_cases"] = gate_cases
 
-    if not proved and not any(not nf for _, nf in ctx.violations) and not any(
+    if not proved_all and not any(not nf for _, nf in ctx.violations) and not any(
             "proof" in open(p).read()[:200] for p, _ in ctx.violations):
         ctx.violation({"kind": "proof", "failing": ctx.proof_failure}, no_failing_input=True)
 
     ctx.cov.update({
         "evaluations": stats["evaluations"],
         "distinct_nontrivial": len(stats["nontrivial"]),
-        "rule": "mirror: directed SDL probes (one per element class of the statement) + seeded random schemas (interface hierarchies, deprecated fields/arguments/input fields/enum values/directive arguments with and without reason, defaults of every kind, repeatable directives, descriptions, custom roots, extensions) + schemas damaged after loading + invalid SDL; non-trivial = schema with at least one deprecation, default, interface chain, directive or damage. gate: generated queries reaching __schema/__type/_service through aliases (incl. masquerading as other fields), inline/named/nested/repeated fragments, @skip/@include with literals, variables and variable defaults, merged duplicates, several operations; non-trivial = distinct (config, query) with at least one gated field collected",
+        "rule": "mirror: directed SDL probes (one per element class of the statement) + seeded random schemas (interface hierarchies, deprecated fields/arguments/input fields/enum values/directive arguments with and without reason, defaults of every kind, repeatable directives, descriptions, custom roots, extensions) + schemas damaged after loading + invalid SDL; non-trivial = schema with at least one deprecation, default, interface chain, directive or damage. gate: generated queries reaching __schema/__type/_service through aliases (incl. masquerading as other fields), inline/named/nested/repeated fragments, @skip/@include with literals, variables and variable defaults, merged duplicates, several operations; non-trivial = distinct (config, query) with at least one gated field collected. gate configuration: 13 directed lists of handler extensions (corpus/C16/gatecfg: extension.Introspection with a context mutator that disables / enables per role or operation, AroundOperations gating, role-rewriting and failing parameter mutators, toggles, one extension with all hooks) in EVERY registration order x roles x operations + seeded random lists of 0-6 extensions (each any subset of parameter mutator / context mutator / operation middleware, per-request conditions, the query optionally supplied by a parameter mutator) in generated, reversed and shuffled order; non-trivial = distinct (config, extension order, query) executed with the gate closed and a gated field collected",
         "input_distribution": dict(stats["dist"]),
         "correspondence_divergences": stats["divergences"],
         "go_oracle_failures": stats["oracle_failures"],
         "gate_cases": stats.get("gate_cases", 0),
         "gate_queries_rejected_by_validation": stats["gate_rejected_by_validation"],
         "enabled_control_runs": stats["enabled_controls"],
+        "gate_configuration_cases": stats["cfg_cases"],
+        "gate_configuration_model_departures": stats["cfg_model_departures"],
+        "gate_configuration_violations": stats["cfg_violations"],
         "rejected_sdl": stats.get("rejected_sdl", 0),
         "samples": stats["samples"][:6],
         "proved_for_all_inputs": ["rebuild_introspect", "introspect_injective", "own_deprecation", "interface_interfaces", "current_views",
-                                  "types_sorted_perm", "type_by_name", "disabled_reveals_nothing", "disabled_independent_of_introspection_data"],
+                                  "types_sorted_perm", "type_by_name", "disabled_reveals_nothing", "disabled_independent_of_introspection_data",
+                                  "effective_eq_spec (over the facts regenerated from processExtensions / CreateOperationContext / extension.Introspection)",
+                                  "configured_disabled_reveals_nothing", "configured_disabled_independent"],
         "sampled_not_proved": ["that the Lean models describe graphql/introspection and the generated gate (differential runs of this check)",
                                "default-value text re-parses to the declared value (Go-side oracle over generated defaults)",
                                "the generated __Type/__Field/... marshalling code (standard introspection query on the probe servers)"],
